@@ -37,7 +37,8 @@ ASSUMPTIONS = ['numeric oracle: exact rational comparison (fractions.Fraction bu
                '<all-in> value is the text of a Python list of str; <range-in> value is the text of a Python number '
                'literal without leading zeros; other value spellings are DONT-CARE',
                'string order is Python str order (code points)']
-SHARDS = {'quick': 1, 'thorough': 16}
+INTERPRETER_FLAGS = [[], ['-O'], [], ['-bb']]
+SHARDS = {'quick': 4, 'thorough': 16}
 MIN_DISTINCT = {'quick': 5000, 'thorough': 100000}
 
 NUM_OPS = ['=', '==', '!=', '<', '<=', '>', '>=']
